@@ -87,7 +87,8 @@ ArgumentKey::ArgumentKey( const string& arg_spec) noexcept( false):
    {
       const int  ignore_leading_dashes =
          static_cast< int>( arg_spec[ 0] == StartChar)
-         + static_cast< int>( arg_spec[ 1] == StartChar);
+         + static_cast< int>( (arg_spec[ 0] == StartChar)
+                              && (arg_spec[ 1] == StartChar));
 
       if (arg_spec[ ignore_leading_dashes] == StartChar)
          throw invalid_argument( "too many leading dashes in argument specification");
